@@ -190,6 +190,25 @@ theorem C19_function_of_inputs (b₁ b₂ : Nat) (mc ms : List Machine) (sq : Si
   have : loopFuel a b₁ = loopFuel a b₂ := by simp [loopFuel, hm]
   rw [this]
 
+/-- **Reproducible**: two runs with the same machines, queue and arguments whose random sources
+    answer every request identically return the same result (trace, stream and stop reason):
+    nothing but (machines, queue, arguments, oracle) enters a run. -/
+theorem C19_reproducible (ρ' : Oracle σ) (hu : ∀ s, ρ.u s = ρ'.u s) (hdd : ∀ d s, ρ.d d s = ρ'.d d s)
+    (budget : Nat) (mc ms : List Machine) (sq : SimQueue) (a : Args) (orc : σ) :
+    (simAdvanced ρ budget mc ms sq a orc).trace = (simAdvanced ρ' budget mc ms sq a orc).trace ∧
+    (simAdvanced ρ budget mc ms sq a orc).stream = (simAdvanced ρ' budget mc ms sq a orc).stream ∧
+    (simAdvanced ρ budget mc ms sq a orc).stop = (simAdvanced ρ' budget mc ms sq a orc).stop := by
+  have : ρ = ρ' := by
+    cases ρ with
+    | mk u d =>
+      cases ρ' with
+      | mk u' d' =>
+        have h1 : u = u' := funext hu
+        have h2 : d = d' := funext fun x => funext fun s => hdd x s
+        rw [h1, h2]
+  subst this
+  exact ⟨rfl, rfl, rfl⟩
+
 /-- **`pick_next` terminates**: the fuel the main loop passes (`pickMeasure st + 1`: pending
     aggregate delays + internal timers + scheduled actions + 1) is never exhausted. -/
 theorem C19_pickNext_fuel (st : St σ) : (pickNext (pickMeasure st + 1) st).isSome = true :=
